@@ -70,6 +70,10 @@ def stmt_code(s, ctx):
         return [("push", s[4]), ("push", s[3]), ("push", s[2]), ("push", s[1]), "EXTCODECOPY"]
     if k == "callx":  # ("callx", "CALL"|"STATICCALL", addr expr): call with empty calldata, record success flag and the first returned word
         val = ["PUSH0"] if s[1] == "CALL" else []
+        # optional 4th element "hi": the output area lies beyond the current end of memory (the call expands memory to cover it,
+        # whatever the callee returns; visible in MSIZE and in the final memory dump)
+        if len(s) > 3:  # only the success flag is recorded: reading the output area would expand memory by itself
+            return [("push", 32), ("push", 0x600), "PUSH0", "PUSH0"] + val + expr_code(s[2]) + [("push", 0xFFFF), s[1], ("push", ctx.out_slot()), "MSTORE"]
         return ([("push", 32), "PUSH0", "PUSH0", "PUSH0"] + val + expr_code(s[2]) + [("push", 0xFFFF), s[1]]
                 + [("push", ctx.out_slot()), "MSTORE", "PUSH0", "MLOAD", ("push", ctx.out_slot()), "MSTORE"])
     if k == "loop":  # ("loop", style, bound expr): i = 0; while (i < e) i++; out(i)   -- "while": the exit is the taken side of the JUMPI; "dowhile": the back edge is
@@ -133,7 +137,7 @@ def stmt_str(s):
     if k == "extcodecopy":
         return f"extcodecopy({s[1]:#x},{s[2]},{s[3]},{s[4]})"
     if k == "callx":
-        return f"callx({s[1]},{expr_str(s[2])})"
+        return f"callx({s[1]},{expr_str(s[2])}{',hi' if len(s) > 3 else ''})"
     if k == "create_probe":
         return f"create_probe({expr_str(s[1])})"
     if k == "loop":
@@ -264,6 +268,8 @@ def statements(kind):
         S.append(("out", ("balance", X)))
         S.append(("callx", "CALL", X))
         S.append(("callx", "STATICCALL", X))
+        S.append(("callx", "CALL", X, "hi"))
+        S.append(("callx", "STATICCALL", ("k", 0xE0AE), "hi"))
         S.append(("create_probe", X))
         # loops on a symbolic bound (cut by --loop: the paths that are reported must still be exact)
         S.append(("loop", "while", ("AND", X, ("k", 7))))
